@@ -16,6 +16,7 @@ O: PyCdlib().open_fp(CountingFile(BytesIO(img))) returns, or raises a subclass o
    under RLIMIT_AS (MemoryError is a violation) and a 30 s alarm catches loops that do not read.
 """
 import io
+import json
 import os
 import resource
 import signal
@@ -43,7 +44,7 @@ ASSUMPTIONS = [
     'work bound: 64 x image size + 64 MiB bytes read, 64 x sectors + 100000 read calls; 30 s wall alarm (re-run once before reporting); RLIMIT_AS 4 GiB',
 ]
 SHARDS = {'quick': 16, 'thorough': 16}
-CASES = {'quick': 1500, 'thorough': 40000}
+CASES = {'quick': 3000, 'thorough': 40000}
 NBASES = 48
 NEXTRA = 8
 BASE_SEED = 20240607
@@ -89,6 +90,9 @@ def bases():
     shim.install('UTC')
     out = []
     seen_cfg = set()
+    pinned = os.path.join(os.path.dirname(os.path.abspath(__file__)), '..', 'data', 'c15_bases.json')
+    programs = []
+    all_built = []
 
     def body(p):
         if len(out) >= NBASES:
@@ -129,7 +133,30 @@ def bases():
             for s in range(pos // 2048, (pos + ln - 1) // 2048 + 1):
                 if s < len(readmap):
                     readmap[s] = 1
+        all_built.append(None)
         out.append({'img': img, 'fields': fields, 'readmap': readmap, 'cfg': p['cfg'], 'profile': p.get('profile')})
+        all_built[-1] = out[-1]
+        programs.append(p)
+    if os.path.exists(pinned):
+        # the base programs are pinned (committed) so that replay files keep their meaning when the generators change
+        saved = json.load(open(pinned))
+        for p in saved:
+            n0 = len(out)
+            seen_cfg.clear()
+            body(p)
+            if len(out) == n0:
+                raise RuntimeError('pinned C15 base program no longer yields an image; regenerate vf/data/c15_bases.json')
+            if len(out) == NBASES:
+                first_pinned = list(out)
+                del out[:]
+        out[:] = first_pinned + out
+        for b in out:
+            kinds = {}
+            for f in b['fields']:
+                kinds.setdefault(f[2], []).append(f)
+            b['kinds'] = sorted(kinds.items())
+        _BASES = out
+        return out
     w = {'mixed': 3, 'growshrink': 1, 'deep': 2, 'links': 2, 'boot': 3, 'hybrid': 2}
     drive(gen.any_profile(reopen_ok=False, weights=w), 400, BASE_SEED, body)
     # indices NBASES.. : bases whose boot file really carries a boot info table (rare above)
@@ -148,6 +175,11 @@ def bases():
         del out[:]
     drive(gen.any_profile(reopen_ok=False, weights={'boot': 3, 'hybrid': 1}), 600, BASE_SEED + 1, body2)
     out[:] = first + extra
+    keep = []
+    for b in out:
+        keep.append(programs[[id(x) for x in all_built].index(id(b))])
+    os.makedirs(os.path.dirname(pinned), exist_ok=True)
+    json.dump(keep, open(pinned, 'w'))
     for b in out:
         kinds = {}
         for f in b['fields']:
@@ -165,7 +197,34 @@ PATCH = st.one_of(
     st.tuples(st.just('trunc'), st.integers(0, 99999), st.sampled_from(['sector', 'interior', 'inside-metadata'])),
     st.tuples(st.just('flip'), st.integers(0, 99999), st.integers(1, 255)),
 )
-CASE = st.tuples(st.integers(0, NBASES + NEXTRA - 1), st.lists(PATCH, min_size=1, max_size=3))
+REPL2 = st.sampled_from(['zero', 'zero', 'zero', 'ff', 'ff', 'random', 'one', 'minus1'])
+# two fields of one structure patched together (a count and the stride it is multiplied with, a length and the offset it is
+# added to ...): the field kind is drawn first over *all* bases, then a base that has it, then a neighbour within 64 bytes
+VALUE_PAIRS = st.one_of(st.sampled_from([('zero', 'ff'), ('ff', 'zero'), ('zero', 'random'), ('random', 'zero'), ('ff', 'ff'), ('zero', 'zero'), ('one', 'ff'), ('ff', 'minus1')]),
+                        st.tuples(REPL2, REPL2))
+PAIR = st.builds(lambda k, i, n, vp, rnd: ('pair', k, i, n, vp[0], vp[1], rnd), st.integers(0, 9999), st.integers(0, 99999), st.integers(0, 99999), VALUE_PAIRS, st.integers(0, 0xffffffff))
+CASE = st.one_of(
+    st.tuples(st.integers(0, NBASES + NEXTRA - 1), st.lists(PATCH, min_size=1, max_size=3)),
+    st.tuples(st.integers(0, NBASES + NEXTRA - 1), st.lists(PATCH, min_size=1, max_size=3)),
+    st.tuples(st.integers(0, 9999), st.tuples(PAIR).map(list)),
+    st.tuples(st.integers(0, 9999), st.tuples(PAIR).map(list)),
+)
+_GLOBAL_KINDS = None
+
+
+def resolve_base(bi, patches, bl):
+    """Base image index of a case: drawn directly, or - for 'pair' cases - one of the bases that have the drawn field kind."""
+    global _GLOBAL_KINDS
+    if patches and patches[0][0] == 'pair':
+        if _GLOBAL_KINDS is None:
+            g = {}
+            for i, b in enumerate(bl):
+                for k, _ in b['kinds']:
+                    g.setdefault(k, []).append(i)
+            _GLOBAL_KINDS = sorted(g.items())
+        kind, where = _GLOBAL_KINDS[patches[0][1] % len(_GLOBAL_KINDS)]
+        return where[bi % len(where)]
+    return bi % len(bl)
 
 
 def apply_patches(base, patches):
@@ -179,6 +238,30 @@ def apply_patches(base, patches):
             insts = base['kinds'][p[1] % len(base['kinds'])][1]
             p = ('field', fields.index(insts[p[2] % len(insts)])) + tuple(p[3:])
             kind = 'field'
+        if kind == 'pair' and fields:
+            gk = dict(base['kinds'])
+            names = sorted(gk)
+            want = _GLOBAL_KINDS[p[1] % len(_GLOBAL_KINDS)][0] if _GLOBAL_KINDS else names[p[1] % len(names)]
+            insts = gk.get(want) or gk[names[p[1] % len(names)]]
+            anchor = insts[p[2] % len(insts)]
+            near = [f for f in fields if f != anchor and abs(f[0] - anchor[0]) <= 64 and f[0] // 2048 == anchor[0] // 2048 and f[1] in (1, 2, 4, 8)]
+            todo = [(anchor, p[4])]
+            if near:
+                todo.append((near[p[3] % len(near)], p[5]))
+            for (off, ln, fk), rk in todo:
+                old = bytes(img[off:off + ln])
+                if len(old) < ln or ln not in (1, 2, 4, 8):
+                    continue
+                v = int.from_bytes(old[:min(ln, 4)], 'little')
+                nv = newval(v, rk, p[6], len(img), fields, fk, img, ln) & ((1 << (8 * min(ln, 4))) - 1)
+                new = nv.to_bytes(min(ln, 4), 'little')
+                if ln == 8:
+                    # both-endian 32-bit (ISO9660) or a 64-bit little-endian number (GPT): keep both readings consistent
+                    new = new + (nv.to_bytes(4, 'big') if old[:4] == old[7:3:-1] else bytes(4))
+                img[off:off + ln] = new
+                touched.append(off)
+                desc.append(('field', fk, rk))
+            continue
         if kind == 'raw':
             blob = bytes.fromhex(p[1])
             img[32768:32768 + len(blob)] = blob
@@ -306,7 +389,7 @@ def _alarm(signum, frame):
 
 def run_case(case, col, bl):
     bi, patches = case
-    base = bl[bi % len(bl)]
+    base = bl[resolve_base(bi, patches, bl)]
     data, touched, desc = apply_patches(base, [tuple(p) for p in patches])
     rm = base['readmap']
     nontriv = any((t // 2048) < len(rm) and rm[t // 2048] for t in touched) and data != base['img']
@@ -319,14 +402,18 @@ def run_case(case, col, bl):
         signal.alarm(30)
         try:
             res = open_one(data)
-            signal.alarm(0)
             break
         except Alarm:
-            signal.alarm(0)
             if attempt == 2:
                 res = ('C15/timeout-30s', 'open_fp did not return within 30 s (twice) on a %d-byte image' % len(data))
             else:
                 col.bump('alarm-first-attempt')
+        except MemoryError:
+            # raised while the first MemoryError was being handled: still the same outcome
+            res = ('C15/memory/while-handling', 'MemoryError while opening a %d-byte image' % len(data))
+            break
+        finally:
+            signal.alarm(0)         # never leave an alarm pending: it would go off inside the driver
     if res is None:
         col.bump('outcome:ok-or-documented')
     else:
@@ -365,7 +452,7 @@ def shrink(case, sig):
     bi, patches = case[0], [tuple(p) for p in case[1]]
 
     def fires(ps):
-        data, _, _ = apply_patches(bl[bi % len(bl)], ps)
+        data, _, _ = apply_patches(bl[resolve_base(bi, ps, bl)], ps)
         r = open_one(data)
         return r is not None and r[0] == sig
     changed = True
